@@ -161,11 +161,13 @@ def tlc_counterexample(text):
 
 
 def export_replay(module, cfg, engine, tier, tag, seed=0, stride=1, timeout=900, last_only=False,
-                  vh_args=None):
+                  vh_args=None, tlc_workers=1):
     """`tlc -workers 1 <export cfg> | vh replay <engine>`: every transition TLC
     generates becomes one behaviour replayed against the real code."""
     meta = os.path.join(WORK, f"tlc_{tag}_{os.getpid()}")
-    tlc_cmd = _java(["-Xmx8g"]) + ["-workers", "1", "-metadir", meta, "-cleanup", "-noGenerateSpecTE",
+    # one worker keeps "one line per transition, shortest path first"; exports whose lines are independent vectors
+    # (level-wise input spaces) may use more
+    tlc_cmd = _java(["-Xmx16g" if tlc_workers > 1 else "-Xmx8g"]) + ["-workers", str(tlc_workers), "-metadir", meta, "-cleanup", "-noGenerateSpecTE",
                                    "-config", cfg, module + ".tla"]
     vh_cmd = [VH, "replay", engine, "--seed", str(seed), "--stride", str(stride)] + (vh_args or [])
     if last_only:
@@ -436,9 +438,9 @@ def model_check_part(v, name, module, cfg, tier, key_prefix, workers=None, timeo
 
 
 def replay_part(v, name, module, cfg, engine, tier, key_prefix, stride=1, timeout=1200, last_only=False,
-                vh_args=None, min_cases=1, count_model=False):
+                vh_args=None, min_cases=1, count_model=False, tlc_workers=1):
     res = export_replay(module, cfg, engine, tier, f"{v.prop}_{slug(name)}", seed=v.seed, stride=stride,
-                        timeout=timeout, last_only=last_only, vh_args=vh_args)
+                        timeout=timeout, last_only=last_only, vh_args=vh_args, tlc_workers=tlc_workers)
     v.add_replay(name, res)
     if count_model:
         # the export run also evaluated the cfg's invariants on every state it generated
